@@ -31,6 +31,8 @@ def shards(tier, seed):
     for c in cfgs:
         for kind in ('outer', 'exp', 'sqrt', 'pow', 'norm'):
             sh.append(dict(stratum=f'sig(d) d<=3: {kind}', cfg=c, kind=kind, size=2 if tier == 'quick' else 3, big=False))
+    for c in [spaces.cfg_pqr(4, 0, 0), spaces.cfg_pqr(3, 0, 1), spaces.cfg_pqr(3, 1, 0)] + ([spaces.cfg_pqr(5, 0, 0), spaces.cfg_pqr(4, 0, 1)] if tier == 'thorough' else []):
+        sh.append(dict(stratum='d=4,5: integer powers of blades, non-simple bivectors and mixed elements', cfg=c, kind='pow', size=1, big=True, powpats=True))
     if tier == 'thorough':
         big = [spaces.cfg_sig(s) for s in spaces.sig(4)[::3]] + [spaces.cfg_pqr(*t) for t in spaces.pqr(5)[::3]] + [spaces.cfg_pqr(*t) for t in [(6, 0, 0), (5, 0, 1), (4, 1, 1)]]
         for c in big:
@@ -66,6 +68,9 @@ def series_exp(ref, x, terms=40):
 
 def patterns(alg, shard):
     c = tuple(alg.canon2bin.values())
+    if shard.get('powpats'):
+        e12, e34, e13 = c[1] ^ c[2], c[3] ^ c[4], c[1] ^ c[3]
+        return [(c[1],), (e12,), (e12, e34), (e34, e12, e13), (c[0], e12, e34), (c[1], e12 ^ c[3]), (c[-1],)]
     if shard['big']:
         g = spaces.grade_of
         pats = [(k,) for k in c[1:]][:12] + [tuple(k for k in c if g(k) == 1), tuple(k for k in c if g(k) == 2)] + [(c[-1],)]
